@@ -219,6 +219,7 @@ def run(ctx, spec):
 def finalize(agg, tier):
   c = agg['counters']
   need = ['decoy_instances_built', 'batch_position:0', 'batch_position:3',
+          'batch_position:4', 'batch_position:5',
           'fermat_inside', 'fermat_outside', 'fermat_at_boundary',
           'hilo:low-heavy', 'hilo:high-heavy', 'unseeded:variant0',
           'unseeded:variant1', 'unseeded:variant2'] + [
